@@ -1,5 +1,5 @@
 (* C16 -- Parsing-context queries reflect the real nesting.  Property theorems only. *)
-Require Import Base Token Tree Parser ParserSpec ParserProofs.
+Require Import Base Token Lexer Tree Parser ParserSpec Grammar NestSpec ParserProofs NestProofs.
 Require Import Gen.Tables.
 
 (* every parse step leaves the context stack exactly as it found it, on every input *)
@@ -21,3 +21,23 @@ Theorem C16_final_top : forall cfg toks r,
   current_context (pr_final r) = P_GlobalContext /\ is_in_function (pr_final r) = false.
 Proof. exact parse_final_ctx. Qed.
 Print Assumptions C16_final_top.
+
+(* NESTING: the answers at every interceptor invocation equal the syntactic nesting of the
+   current token *)
+
+(* for every program of the grammar, any lists of statement / expression interceptors of the
+   modelled kinds (pass-through, probe, re-entrant): every logged probe event carries the
+   answers that NestSpec.nest_program assigns to its current token: IsInFunction = the token
+   is inside a function body, CurrentContext = Global outside every brace block, Block
+   inside one (the code never answers Function at a statement or expression step: KF8) *)
+Theorem C16_reflects_nesting : forall toks p sis eis r,
+  NoDup toks -> m_program p toks = true -> wf_program p = true ->
+  parse_tokens (cfg_with sis eis) toks = Some r ->
+  pr_program r = p /\ nesting_reflected p (ps_log (pr_final r)) = true.
+Proof. exact nesting_is_reflected. Qed.
+Print Assumptions C16_reflects_nesting.
+
+(* token lists produced by the lexer have no repeated token *)
+Theorem C16_lexed_tokens_distinct : forall src toks, tokenize src = Some toks -> NoDup toks.
+Proof. exact lexed_tokens_nodup. Qed.
+Print Assumptions C16_lexed_tokens_distinct.
